@@ -362,6 +362,8 @@ def run(chk):
     # near-identical requests: a base and its one-attribute variants must each come out as if computed alone
     for bench in (['meshV2+island'] if chk.tier == 'quick' else ['meshV2+island', 'testTopology']):
         for label, reqs in pu.near_identical(bench):
+            if chk.tier == 'quick' and label.endswith('-C'):
+                continue        # long bidirectional automatic-mode base: thorough tier (quick has it under GGN, one span)
             n = len(reqs)
             orders = [('original', list(range(n))), ('reversed', list(reversed(range(n))))]
             if chk.tier == 'thorough':
